@@ -191,6 +191,17 @@ class FuncInfo:
         a = self.node.args
         return [x.arg for x in a.posonlyargs + a.args + a.kwonlyargs]
 
+    @property
+    def explicit_body(self) -> list[ast.stmt]:
+        """the body with conditional values written as if / else and comprehension statements as loops (normal.explicit)"""
+        c = getattr(self.node, '_verif_explicit', None)
+        if c is None:
+            from .normal import explicit
+
+            c = explicit(self.body)
+            self.node._verif_explicit = c
+        return c
+
     def positional_params(self) -> list[str]:
         a = self.node.args
         return [x.arg for x in a.posonlyargs + a.args]
